@@ -563,3 +563,151 @@ impl VerifTableHandle {
 		)
 	}
 }
+
+// ---------------------------------------------------------------------------
+// H8: the lock-free pieces on their own (memtable, commit pipeline over a
+// caller-supplied environment) - small enough to run under an interpreter
+// ---------------------------------------------------------------------------
+
+/// One entry of a memtable as the monitor sees it.
+pub type VerifMemEntry = (Vec<u8>, u64, u8, Vec<u8>);
+
+/// A bare memtable.
+#[derive(Clone)]
+pub struct VerifMemTable {
+	inner: Arc<crate::memtable::MemTable>,
+}
+
+fn verif_batch(seq: u64, entries: &[(Vec<u8>, Option<Vec<u8>>)]) -> Result<crate::batch::Batch> {
+	let mut b = crate::batch::Batch::new(seq);
+	for (k, v) in entries {
+		match v {
+			Some(v) => b.add_record(crate::InternalKeyKind::Set, k.clone(), Some(v.clone()), 0)?,
+			None => b.add_record(crate::InternalKeyKind::Delete, k.clone(), None, 0)?,
+		}
+	}
+	Ok(b)
+}
+
+impl VerifMemTable {
+	pub fn new(arena_capacity: usize) -> Self {
+		Self {
+			inner: Arc::new(crate::memtable::MemTable::new(arena_capacity)),
+		}
+	}
+
+	/// Adds the entries as one batch whose first entry gets `seq`.
+	pub fn add(&self, seq: u64, entries: &[(Vec<u8>, Option<Vec<u8>>)]) -> Result<()> {
+		self.inner.add(&verif_batch(seq, entries)?)
+	}
+
+	/// `(seq, kind, value)` of the newest entry of `key` at or below `seq`.
+	pub fn get(&self, key: &[u8], seq: u64) -> Option<(u64, u8, Vec<u8>)> {
+		self.inner.get(key, Some(seq)).map(|(k, v)| (k.seq_num(), k.kind() as u8, v))
+	}
+
+	/// Every entry, by a forward or a backward walk.
+	pub fn scan(&self, forward: bool) -> Result<Vec<VerifMemEntry>> {
+		use crate::LSMIterator;
+		let mut it = self.inner.iter();
+		let mut out = Vec::new();
+		let mut ok = if forward { it.seek_first()? } else { it.seek_last()? };
+		while ok && it.valid() {
+			let k = it.key();
+			out.push((
+				k.user_key().to_vec(),
+				k.seq_num(),
+				k.kind() as u8,
+				it.value_encoded()?.to_vec(),
+			));
+			ok = if forward { it.next()? } else { it.prev()? };
+		}
+		Ok(out)
+	}
+
+	pub fn size(&self) -> usize {
+		self.inner.size()
+	}
+}
+
+/// What the monitor supplies in place of the commit log and the memtable.
+pub trait VerifCommitEnv: Send + Sync + 'static {
+	/// Called under the pipeline's write lock, in sequence-number order.
+	fn write(&self, seq: u64, count: u32) -> std::result::Result<(), String>;
+	/// Called outside the lock, concurrently.
+	fn apply(&self, seq: u64, entries: &[(Vec<u8>, Option<Vec<u8>>)]) -> std::result::Result<(), String>;
+}
+
+struct VerifEnvAdapter(Arc<dyn VerifCommitEnv>);
+
+impl crate::commit::CommitEnv for VerifEnvAdapter {
+	fn write(&self, batch: &crate::batch::Batch, seq_num: u64, _sync: bool) -> Result<crate::batch::Batch> {
+		self.0.write(seq_num, batch.count()).map_err(crate::Error::Other)?;
+		Ok(batch.clone())
+	}
+
+	fn apply(&self, batch: &crate::batch::Batch) -> Result<()> {
+		let entries: Vec<(Vec<u8>, Option<Vec<u8>>)> =
+			batch.entries.iter().map(|e| (e.key.clone(), e.value.clone())).collect();
+		self.0.apply(batch.starting_seq_num, &entries).map_err(crate::Error::Other)
+	}
+
+	fn check_background_error(&self) -> Result<()> {
+		Ok(())
+	}
+
+	fn oldest_active_start_seq(&self) -> u64 {
+		0
+	}
+}
+
+struct VerifNoStall;
+
+impl crate::stall::WriteStallCountProvider for VerifNoStall {
+	fn get_stall_counts(&self) -> crate::stall::StallCounts {
+		crate::stall::StallCounts {
+			immutable_memtables: 0,
+			l0_files: 0,
+		}
+	}
+}
+
+/// The commit pipeline over a monitor-supplied environment.
+pub struct VerifPipeline {
+	inner: Arc<crate::commit::CommitPipeline>,
+	visible: Arc<std::sync::atomic::AtomicU64>,
+}
+
+impl VerifPipeline {
+	pub fn new(env: Arc<dyn VerifCommitEnv>) -> Self {
+		let visible = Arc::new(std::sync::atomic::AtomicU64::new(0));
+		let provider: Arc<dyn crate::stall::WriteStallCountProvider> = Arc::new(VerifNoStall);
+		let stall = Arc::new(crate::stall::WriteStallController::new(
+			provider,
+			crate::stall::StallThresholds {
+				memtable_limit: 2,
+				l0_file_limit: 12,
+			},
+		));
+		Self {
+			inner: crate::commit::CommitPipeline::new(
+				Arc::new(VerifEnvAdapter(env)),
+				Arc::clone(&visible),
+				stall,
+			),
+			visible,
+		}
+	}
+
+	pub async fn commit(&self, entries: &[(Vec<u8>, Option<Vec<u8>>)], start_seq: u64) -> Result<()> {
+		self.inner.commit(verif_batch(0, entries)?, false, start_seq).await
+	}
+
+	pub fn visible(&self) -> u64 {
+		self.visible.load(Ordering::Acquire)
+	}
+
+	pub fn shutdown(&self) {
+		self.inner.shutdown()
+	}
+}
